@@ -43,9 +43,11 @@ func isDecInt(s string) bool {
 }
 
 // classify is the checker's own literal grammar:
-//   dec   = "0" | nonzero digit { digit }
-//   hex   = "0" ("x"|"X") hexdigit+          bin = "0" ("b"|"B") ("0"|"1")+
-//   float = dec "." digit+ [exp] | dec exp    exp = ("e"|"E") ["+"|"-"] digit+
+//
+//	dec   = "0" | nonzero digit { digit }
+//	hex   = "0" ("x"|"X") hexdigit+          bin = "0" ("b"|"B") ("0"|"1")+
+//	float = dec "." digit+ [exp] | dec exp    exp = ("e"|"E") ["+"|"-"] digit+
+//
 // optionally preceded by one "-".  Everything else is not a literal spelling
 // of the property's four number forms.
 func classify(s string) (lc litCase, ok bool) {
